@@ -1,6 +1,585 @@
-From Coq Require Import List Arith Bool Lia.
+(* Proofs about Model/KTree.v (C07). *)
+From Coq Require Import List Arith Bool Lia Permutation Wf_nat.
 From Circ Require Import Model.KTree.
 Import ListNotations.
 
-Lemma init_roots : forall c, par init c = c /\ rt init c = c.
-Proof. intro c. split; reflexivity. Qed.
+(* ------------------------------------------------------------------ small facts *)
+
+Lemma upd_same : forall A (f : comp -> A) k v, upd f k v k = v.
+Proof. intros. unfold upd. rewrite Nat.eqb_refl. reflexivity. Qed.
+
+Lemma upd_other : forall A (f : comp -> A) k v j, j <> k -> upd f k v j = f j.
+Proof. intros. unfold upd. destruct (j =? k) eqn:E; [apply Nat.eqb_eq in E; contradiction | reflexivity]. Qed.
+
+Lemma upd2_same : forall f p c v, upd2 f p c v p c = v.
+Proof. intros. unfold upd2. rewrite !Nat.eqb_refl. reflexivity. Qed.
+
+Lemma upd2_other : forall f p c v a b, (a <> p \/ b <> c) -> upd2 f p c v a b = f a b.
+Proof.
+  intros f p c v a b H. unfold upd2.
+  destruct (a =? p) eqn:E1; destruct (b =? c) eqn:E2; simpl; try reflexivity.
+  apply Nat.eqb_eq in E1. apply Nat.eqb_eq in E2. destruct H; contradiction.
+Qed.
+
+(* ------------------------------------------------------------------ descendants *)
+
+(* x is in the subtree of c: reachable through .components links *)
+Inductive desc (kd : comp -> comp -> bool) : comp -> comp -> Prop :=
+| desc_refl : forall c, desc kd c c
+| desc_step : forall c k x, kd c k = true -> desc kd k x -> desc kd c x.
+
+Lemma desc_right : forall kd c y x, desc kd c y -> kd y x = true -> desc kd c x.
+Proof.
+  intros kd c y x H. induction H as [c | c k y Hk Hd IH]; intro Hx.
+  - eapply desc_step; [exact Hx | apply desc_refl].
+  - eapply desc_step; [exact Hk | apply IH; exact Hx].
+Qed.
+
+Lemma desc_trans : forall kd a b c, desc kd a b -> desc kd b c -> desc kd a c.
+Proof.
+  intros kd a b c H. induction H as [a | a k b Hk Hd IH]; intro Hc; [exact Hc|].
+  eapply desc_step; [exact Hk | apply IH; exact Hc].
+Qed.
+
+(* induction from the right end *)
+Lemma desc_rind : forall kd c x, desc kd c x ->
+  forall P : comp -> Prop, P c ->
+  (forall y z, desc kd c y -> P y -> kd y z = true -> P z) -> P x.
+Proof.
+  intros kd c x H. induction H as [c | c k x Hk Hd IH]; intros P Pc Pstep; [exact Pc|].
+  apply IH.
+  - eapply Pstep; [apply desc_refl | exact Pc | exact Hk].
+  - intros y z Hy Py Hz. eapply Pstep; [| exact Py | exact Hz].
+    eapply desc_step; [exact Hk | exact Hy].
+Qed.
+
+Lemma desc_inv_right : forall kd c x, desc kd c x -> x = c \/ exists y, desc kd c y /\ kd y x = true.
+Proof.
+  intros kd c x H.
+  apply (desc_rind kd c x H (fun z => z = c \/ exists y, desc kd c y /\ kd y z = true)).
+  - left; reflexivity.
+  - intros y z Hy _ Hz. right. exists y. split; assumption.
+Qed.
+
+Lemma desc_mono : forall (kd kd' : comp -> comp -> bool) c x,
+  (forall a b, kd a b = true -> kd' a b = true) -> desc kd c x -> desc kd' c x.
+Proof.
+  intros kd kd' c x Hm H. induction H as [c | c k x Hk Hd IH]; [apply desc_refl|].
+  eapply desc_step; [apply Hm; exact Hk | exact IH].
+Qed.
+
+(* ------------------------------------------------------------------ _updateRoot *)
+
+Definition ur_step (n fu : nat) (kd : comp -> comp -> bool) (r c : comp)
+  (acc : option (comp -> comp)) (k : comp) : option (comp -> comp) :=
+  match acc with
+  | None => None
+  | Some g => if kd c k then upd_root n fu kd r k g else Some g
+  end.
+
+Lemma upd_root_S : forall n fu kd r c f,
+  upd_root n (S fu) kd r c f = fold_left (ur_step n fu kd r c) (seq 0 n) (Some (upd f c r)).
+Proof. reflexivity. Qed.
+
+Lemma fold_ur_none : forall n fu kd r c l, fold_left (ur_step n fu kd r c) l None = None.
+Proof. induction l as [|k l IH]; simpl; [reflexivity | exact IH]. Qed.
+
+Definition ur_spec (kd : comp -> comp -> bool) (r c : comp) (f g : comp -> comp) : Prop :=
+  forall x, (desc kd c x /\ g x = r) \/ (~ desc kd c x /\ g x = f x).
+
+Lemma fold_ur_spec : forall n fu kd r c,
+  (forall k f g, upd_root n fu kd r k f = Some g -> ur_spec kd r k f g) ->
+  forall l g0 g, fold_left (ur_step n fu kd r c) l (Some g0) = Some g ->
+  forall x, ((exists k, In k l /\ kd c k = true /\ desc kd k x) /\ g x = r)
+            \/ (~ (exists k, In k l /\ kd c k = true /\ desc kd k x) /\ g x = g0 x).
+Proof.
+  intros n fu kd r c IHfu. induction l as [|k l IH]; intros g0 g H x.
+  - simpl in H. inversion H; subst. right. split; [|reflexivity].
+    intros [k [[] _]].
+  - simpl in H. destruct (kd c k) eqn:Hk.
+    + destruct (upd_root n fu kd r k g0) as [g1|] eqn:H1.
+      2:{ rewrite fold_ur_none in H. discriminate. }
+      specialize (IHfu k g0 g1 H1 x). specialize (IH g1 g H x).
+      destruct IH as [[[k' [Hin [Hk' Hd]]] Hg] | [Hn Hg]].
+      * left. split; [|exact Hg]. exists k'. split; [right; exact Hin | split; assumption].
+      * destruct IHfu as [[Hd Hg1] | [Hnd Hg1]].
+        -- left. split; [|congruence]. exists k. split; [left; reflexivity | split; assumption].
+        -- right. split; [|congruence].
+           intros [k' [[->|Hin] [Hk' Hd]]]; [apply Hnd; exact Hd|].
+           apply Hn. exists k'. split; [exact Hin | split; assumption].
+    + specialize (IH g0 g H x).
+      destruct IH as [[[k' [Hin [Hk' Hd]]] Hg] | [Hn Hg]].
+      * left. split; [|exact Hg]. exists k'. split; [right; exact Hin | split; assumption].
+      * right. split; [|exact Hg].
+        intros [k' [[->|Hin] [Hk' Hd]]]; [congruence|].
+        apply Hn. exists k'. split; [exact Hin | split; assumption].
+Qed.
+
+(* a successful _updateRoot(r) from c sets the root of exactly c's subtree *)
+Lemma upd_root_spec : forall n kd r, (forall a b, kd a b = true -> b < n) ->
+  forall fu c f g, upd_root n fu kd r c f = Some g -> ur_spec kd r c f g.
+Proof.
+  intros n kd r Hlt. induction fu as [|fu IH]; intros c f g H; [discriminate|].
+  rewrite upd_root_S in H. intro x.
+  destruct (fold_ur_spec n fu kd r c IH (seq 0 n) (upd f c r) g H x)
+    as [[[k [Hin [Hk Hd]]] Hg] | [Hn Hg]].
+  - left. split; [|exact Hg]. eapply desc_step; [exact Hk | exact Hd].
+  - destruct (Nat.eq_dec x c) as [->|Hxc].
+    + left. split; [apply desc_refl|]. rewrite Hg. apply upd_same.
+    + right. split.
+      * intro Hd. inversion Hd as [|c' k x' Hk Hd']; subst; [contradiction|].
+        apply Hn. exists k. split; [|split; assumption].
+        apply in_seq. split; [lia|]. simpl. eapply Hlt; exact Hk.
+      * rewrite Hg. apply upd_other. exact Hxc.
+Qed.
+
+(* ------------------------------------------------------------------ getHandlers reach *)
+
+Lemma reachb_sound : forall n kd fu c x, reachb n fu kd c x = true -> desc kd c x.
+Proof.
+  intros n kd. induction fu as [|fu IH]; intros c x H; [discriminate|].
+  simpl in H. destruct (x =? c) eqn:E.
+  - apply Nat.eqb_eq in E. subst. apply desc_refl.
+  - apply existsb_exists in H. destruct H as [k [_ Hk]].
+    destruct (kd c k) eqn:Hc; [|discriminate].
+    eapply desc_step; [exact Hc | apply IH; exact Hk].
+Qed.
+
+Lemma members_sound : forall n kd r x, In x (members n kd r) -> desc kd r x.
+Proof.
+  intros n kd r x H. unfold members in H. apply filter_In in H. destruct H as [_ H].
+  eapply reachb_sound; exact H.
+Qed.
+
+(* ------------------------------------------------------------------ the invariant *)
+
+Record InvF (n : nat) (pa ro : comp -> comp) (kd : comp -> comp -> bool) (pe di : comp -> bool)
+  (ca : comp -> list (key * list comp)) (dl : list drec) : Prop := mkInv {
+  i_kidlt : forall p c, kd p c = true -> c < n;
+  i_rtlt : forall x, x < n -> ro x < n;
+  i_kid : forall p c, kd p c = true <-> (pa c = p /\ c <> p);
+  i_rtpar : forall c, ro (pa c) = ro c;
+  i_rtroot : forall c, pa (ro c) = ro c;
+  i_self : forall c, pa c = c -> ro c = c;
+  i_rank : exists rk : comp -> nat, forall c, pa c <> c -> rk (pa c) < rk c;
+  i_pend : forall c, pe c = true -> pa c <> c;
+  i_cache : forall r, pa r = r -> di r = false ->
+            forall k ms x, In (k, ms) (ca r) -> In x ms -> ro x = r;
+  i_disp : forall d, In d dl -> d_ok d = true
+}.
+
+Definition Inv (n : nat) (s : st) : Prop :=
+  InvF n (par s) (rt s) (kid s) (pend s) (dirty s) (cache s) (disp s).
+
+Lemma inv_init : forall n, Inv n init.
+Proof.
+  intro n. unfold Inv, init; simpl. constructor; simpl.
+  - intros p c H; discriminate.
+  - intros x H; exact H.
+  - intros p c. split; [discriminate | intros [H1 H2]; congruence].
+  - reflexivity.
+  - reflexivity.
+  - reflexivity.
+  - exists (fun _ => 0). intros c H; congruence.
+  - intros c H; discriminate.
+  - intros r _ _ k ms x H; contradiction.
+  - intros d H; contradiction.
+Qed.
+
+(* everything in the subtree of c has c's root *)
+Lemma desc_rt : forall n pa ro kd pe di ca dl, InvF n pa ro kd pe di ca dl ->
+  forall c x, desc kd c x -> ro x = ro c.
+Proof.
+  intros n pa ro kd pe di ca dl I c x H.
+  apply (desc_rind kd c x H (fun z => ro z = ro c)); [reflexivity|].
+  intros y z _ Hy Hz. apply (i_kid _ _ _ _ _ _ _ _ I) in Hz. destruct Hz as [Hz _].
+  rewrite <- Hy, <- Hz. symmetry. apply (i_rtpar _ _ _ _ _ _ _ _ I).
+Qed.
+
+(* every component is in the subtree of its root: parent links lead to the root *)
+Lemma desc_of_root : forall n pa ro kd pe di ca dl, InvF n pa ro kd pe di ca dl ->
+  forall x, desc kd (ro x) x.
+Proof.
+  intros n pa ro kd pe di ca dl I.
+  destruct (i_rank _ _ _ _ _ _ _ _ I) as [rk Hrk].
+  intro x. remember (rk x) as m eqn:Hm. revert x Hm.
+  induction m as [m IH] using lt_wf_ind. intros x Hm.
+  destruct (Nat.eq_dec (pa x) x) as [E|E].
+  - rewrite (i_self _ _ _ _ _ _ _ _ I x E). apply desc_refl.
+  - assert (Hlt : rk (pa x) < m) by (subst m; apply Hrk; exact E).
+    specialize (IH _ Hlt (pa x) eq_refl).
+    rewrite (i_rtpar _ _ _ _ _ _ _ _ I) in IH.
+    eapply desc_right; [exact IH|].
+    apply (i_kid _ _ _ _ _ _ _ _ I). split; [reflexivity | congruence].
+Qed.
+
+(* ------------------------------------------------------------------ register preserves the invariant *)
+
+Lemma reg_invF : forall n pa ro kd pe di ca dl c p g,
+  InvF n pa ro kd pe di ca dl ->
+  c < n -> p < n -> pa c = c -> pe c = false -> ro p <> c -> c <> p ->
+  ur_spec (upd2 kd p c true) (ro p) c (upd ro c (ro p)) g ->
+  InvF n (upd pa c p) g (upd2 kd p c true) pe (upd di (ro p) true) ca dl.
+Proof.
+  intros n pa ro kd pe di ca dl c p g I Hc Hp Hdet Hnp Hout Hcp Hg.
+  pose proof (desc_of_root _ _ _ _ _ _ _ _ I) as Hdr.
+  destruct I as [Hkl Hrl Hk Hrp Hrr Hs [rk Hrk] Hpe Hca Hdl].
+  assert (Hrc : ro c = c) by (apply Hs; exact Hdet).
+  (* the subtree of c under the new links is the old tree of c *)
+  assert (F1 : forall x, desc (upd2 kd p c true) c x -> ro x = c).
+  { intros x Hd. apply (desc_rind _ c x Hd (fun z => ro z = c)); [exact Hrc|].
+    intros y z _ Hy Hz.
+    destruct (Nat.eq_dec y p) as [->|Ny]; [congruence|].
+    rewrite upd2_other in Hz by (left; exact Ny).
+    apply Hk in Hz. destruct Hz as [Hz _]. rewrite <- Hz, Hrp in Hy. exact Hy. }
+  assert (F2 : forall x, ro x = c -> desc (upd2 kd p c true) c x).
+  { intros x Hx. pose proof (Hdr x) as Hd0. rewrite Hx in Hd0. eapply desc_mono; [|exact Hd0].
+    intros a b Hab. destruct (Nat.eq_dec a p) as [->|Na]; destruct (Nat.eq_dec b c) as [->|Nb].
+    - apply upd2_same.
+    - rewrite upd2_other by (right; exact Nb). exact Hab.
+    - rewrite upd2_other by (left; exact Na). exact Hab.
+    - rewrite upd2_other by (left; exact Na). exact Hab. }
+  assert (G : forall x, (ro x = c /\ g x = ro p) \/ (ro x <> c /\ g x = ro x)).
+  { intro x. destruct (Hg x) as [[Hd Hx] | [Hd Hx]].
+    - left. split; [apply F1; exact Hd | exact Hx].
+    - right. assert (ro x <> c) by (intro E; apply Hd; apply F2; exact E).
+      split; [assumption|]. rewrite Hx. apply upd_other. intro E; subst x. congruence. }
+  assert (Gp : g p = ro p) by (destruct (G p) as [[E _]|[_ E]]; [contradiction | exact E]).
+  assert (Gc : g c = ro p) by (destruct (G c) as [[_ E]|[E _]]; [exact E | contradiction]).
+  constructor.
+  - intros a b H. destruct (Nat.eq_dec a p) as [->|Na]; destruct (Nat.eq_dec b c) as [->|Nb];
+      try exact Hc; (rewrite upd2_other in H by tauto); eapply Hkl; exact H.
+  - intros x Hx. destruct (G x) as [[_ E]|[_ E]]; rewrite E; [apply Hrl; exact Hp | apply Hrl; exact Hx].
+  - intros a b. destruct (Nat.eq_dec b c) as [->|Nb].
+    + rewrite upd_same. destruct (Nat.eq_dec a p) as [->|Na].
+      * rewrite upd2_same. split; [intros _; split; [reflexivity | exact Hcp] | reflexivity].
+      * rewrite upd2_other by (left; exact Na). split.
+        -- intro H. apply Hk in H. destruct H as [H1 H2]. congruence.
+        -- intros [H1 _]. congruence.
+    + rewrite upd_other by exact Nb. rewrite upd2_other by (right; exact Nb). apply Hk.
+  - intro x. destruct (Nat.eq_dec x c) as [->|Nx].
+    + rewrite upd_same. congruence.
+    + rewrite upd_other by exact Nx.
+      destruct (G x) as [[E1 E2]|[E1 E2]]; destruct (G (pa x)) as [[E3 E4]|[E3 E4]];
+        rewrite Hrp in E3; try contradiction; congruence.
+  - intro x. assert (Hro : forall y, ro y <> c -> upd pa c p (ro y) = ro y).
+    { intros y Hy. rewrite upd_other by exact Hy. apply Hrr. }
+    destruct (G x) as [[_ E]|[E1 E]]; rewrite E; apply Hro; assumption.
+  - intros x H. destruct (Nat.eq_dec x c) as [->|Nx].
+    + rewrite upd_same in H. congruence.
+    + rewrite upd_other in H by exact Nx. pose proof (Hs x H) as Hx.
+      destruct (G x) as [[E _]|[_ E]]; congruence.
+  - exists (fun x => if ro x =? c then rk x + rk p + 1 else rk x).
+    intros x H. destruct (Nat.eq_dec x c) as [->|Nx].
+    + rewrite upd_same. rewrite Hrc, Nat.eqb_refl.
+      destruct (ro p =? c) eqn:E; [apply Nat.eqb_eq in E; contradiction | lia].
+    + rewrite upd_other in H |- * by exact Nx. rewrite Hrp.
+      specialize (Hrk x H). destruct (ro x =? c); lia.
+  - intros x H. destruct (Nat.eq_dec x c) as [->|Nx]; [congruence|].
+    rewrite upd_other by exact Nx. apply Hpe; exact H.
+  - intros r Hr Hdi k ms x Hin Hx.
+    destruct (Nat.eq_dec r (ro p)) as [->|Nr]; [rewrite upd_same in Hdi; discriminate|].
+    rewrite upd_other in Hdi by exact Nr.
+    destruct (Nat.eq_dec r c) as [->|Nc]; [rewrite upd_same in Hr; congruence|].
+    rewrite upd_other in Hr by exact Nc.
+    pose proof (Hca r Hr Hdi k ms x Hin Hx) as E.
+    destruct (G x) as [[E1 _]|[_ E2]]; congruence.
+  - exact Hdl.
+Qed.
+
+(* ------------------------------------------------------------------ completing an unregistration preserves it *)
+
+Lemma unreg_invF : forall n pa ro kd pe di ca dl c g,
+  InvF n pa ro kd pe di ca dl ->
+  pa c <> c ->
+  ur_spec (upd2 kd (pa c) c false) c c ro g ->
+  InvF n (upd pa c c) g (upd2 kd (pa c) c false) (upd pe c false)
+       (upd (upd di (ro (pa c)) true) c true) ca dl.
+Proof.
+  intros n pa ro kd pe di ca dl c g I Hatt Hg.
+  pose proof (desc_rt _ _ _ _ _ _ _ _ I) as Hdrt.
+  destruct I as [Hkl Hrl Hk Hrp Hrr Hs [rk Hrk] Hpe Hca Hdl].
+  set (p := pa c) in *.
+  assert (Hsub : forall a b, upd2 kd p c false a b = true -> kd a b = true).
+  { intros a b H. destruct (Nat.eq_dec a p) as [->|Na]; destruct (Nat.eq_dec b c) as [->|Nb].
+    - rewrite upd2_same in H. discriminate.
+    - rewrite upd2_other in H by tauto. exact H.
+    - rewrite upd2_other in H by tauto. exact H.
+    - rewrite upd2_other in H by tauto. exact H. }
+  assert (Hkc : kd p c = true) by (apply Hk; split; [reflexivity | exact (not_eq_sym Hatt)]).
+  assert (Hcn : c < n) by (eapply Hkl; exact Hkc).
+  assert (Hdold : forall x, desc (upd2 kd p c false) c x -> ro x = ro c).
+  { intros x H. apply Hdrt. eapply desc_mono; [exact Hsub | exact H]. }
+  assert (Gc : g c = c).
+  { destruct (Hg c) as [[_ E]|[E _]]; [exact E | exfalso; apply E; apply desc_refl]. }
+  (* a proper member of the subtree has its parent in the subtree *)
+  assert (Hup : forall x, x <> c -> desc (upd2 kd p c false) c x -> desc (upd2 kd p c false) c (pa x) /\ pa x <> x).
+  { intros x Nx H. apply desc_inv_right in H. destruct H as [->|[y [Hy Hyx]]]; [contradiction|].
+    apply Hsub in Hyx. apply Hk in Hyx. destruct Hyx as [E1 E2]. rewrite E1. split; [exact Hy | congruence]. }
+  assert (Hdown : forall x, x <> c -> pa x <> x -> desc (upd2 kd p c false) c (pa x) -> desc (upd2 kd p c false) c x).
+  { intros x Nx Hx H. eapply desc_right; [exact H|].
+    rewrite upd2_other by (right; exact Nx). apply Hk. split; [reflexivity | congruence]. }
+  constructor.
+  - intros a b H. eapply Hkl. apply Hsub. exact H.
+  - intros x Hx. destruct (Hg x) as [[_ E]|[_ E]]; rewrite E; [exact Hcn | apply Hrl; exact Hx].
+  - intros a b. destruct (Nat.eq_dec b c) as [->|Nb].
+    + rewrite upd_same. destruct (Nat.eq_dec a p) as [->|Na].
+      * rewrite upd2_same. split; [discriminate | intros [H1 H2]; congruence].
+      * rewrite upd2_other by (left; exact Na). split.
+        -- intro H. apply Hk in H. destruct H as [H1 _]. exfalso. apply Na. symmetry. exact H1.
+        -- intros [H1 H2]. congruence.
+    + rewrite upd_other by exact Nb. rewrite upd2_other by (right; exact Nb). apply Hk.
+  - intro x. destruct (Nat.eq_dec x c) as [->|Nx]; [rewrite upd_same; reflexivity|].
+    rewrite upd_other by exact Nx.
+    destruct (Hg x) as [[D E]|[D E]].
+    + destruct (Hup x Nx D) as [D' _].
+      destruct (Hg (pa x)) as [[_ E']|[D'' _]]; [congruence | contradiction].
+    + destruct (Nat.eq_dec (pa x) x) as [Ep|Np]; [rewrite Ep; reflexivity|].
+      destruct (Hg (pa x)) as [[D' _]|[_ E']].
+      * exfalso. apply D. apply Hdown; assumption.
+      * rewrite E', E. apply Hrp.
+  - intro x. destruct (Hg x) as [[_ E]|[_ E]]; rewrite E.
+    + apply upd_same.
+    + assert (ro x <> c) by (intro H; apply Hatt; unfold p; rewrite <- H; apply Hrr).
+      rewrite upd_other by assumption. apply Hrr.
+  - intros x H. destruct (Nat.eq_dec x c) as [->|Nx]; [exact Gc|].
+    rewrite upd_other in H by exact Nx.
+    destruct (Hg x) as [[D _]|[_ E]].
+    + destruct (Hup x Nx D) as [_ D']. contradiction.
+    + rewrite E. apply Hs. exact H.
+  - exists rk. intros x H. destruct (Nat.eq_dec x c) as [->|Nx]; [rewrite upd_same in H; congruence|].
+    rewrite upd_other in H |- * by exact Nx. apply Hrk. exact H.
+  - intros x H. destruct (Nat.eq_dec x c) as [->|Nx]; [rewrite upd_same in H; discriminate|].
+    rewrite upd_other in H |- * by exact Nx. apply Hpe. exact H.
+  - intros r Hr Hdi k ms x Hin Hx.
+    destruct (Nat.eq_dec r c) as [->|Nc]; [rewrite upd_same in Hdi; discriminate|].
+    rewrite upd_other in Hdi by exact Nc.
+    destruct (Nat.eq_dec r (ro p)) as [->|Nr]; [rewrite upd_same in Hdi; discriminate|].
+    rewrite upd_other in Hdi by exact Nr.
+    rewrite upd_other in Hr by exact Nc.
+    pose proof (Hca r Hr Hdi k ms x Hin Hx) as E.
+    destruct (Hg x) as [[D _]|[_ E2]]; [|congruence].
+    exfalso. apply Nr. rewrite <- E, (Hdold x D). symmetry. apply Hrp.
+  - exact Hdl.
+Qed.
+
+(* ------------------------------------------------------------------ what the operations do, as equations *)
+
+Ltac proj_in H :=
+  cbn [par rt kid pend q dirty cache regd unregd disp
+       set_par set_rt set_kid set_pend set_q set_dirty set_cache set_regd set_unregd set_disp enq] in H.
+Ltac proj :=
+  cbn [par rt kid pend q dirty cache regd unregd disp
+       set_par set_rt set_kid set_pend set_q set_dirty set_cache set_regd set_unregd set_disp enq].
+
+Lemma complete_ok : forall n c s s', complete n c s = Ok s' ->
+  pend s c = true /\
+  (par s c <> c ->
+   exists f, upd_root n (S n) (upd2 (kid s) (par s c) c false) c c (rt s) = Some f /\
+     s' = mkst (upd (par s) c c) f (upd2 (kid s) (par s c) c false) (upd (pend s) c false)
+               (upd (q s) (rt s c) (q s (rt s c) ++ [Unregistered c (par s c)]))
+               (upd (upd (dirty s) (rt s (par s c)) true) c true) (cache s) (regd s)
+               ((c, par s c) :: unregd s) (disp s)).
+Proof.
+  intros n c s s' H. unfold complete in H.
+  destruct (pend s c) eqn:Hp; [|discriminate]. split; [reflexivity|]. intro Hatt.
+  cbn [negb] in H. proj_in H.
+  destruct (par s c =? c) eqn:E; [apply Nat.eqb_eq in E; contradiction|].
+  destruct (kid s (par s c) c) eqn:Hk; cbn [negb] in H; [|discriminate].
+  proj_in H.
+  destruct (upd_root n (S n) (upd2 (kid s) (par s c) c false) c c (rt s)) as [f|] eqn:Hu; [|discriminate].
+  exists f. split; [reflexivity|]. inversion H. reflexivity.
+Qed.
+
+Lemma register_ok : forall n c p s s', register n c p s = Ok s' ->
+  c < n /\ p < n /\ par s c = c /\ pend s c = false /\ rt s p <> c /\ c <> p /\
+  exists f, upd_root n (S n) (upd2 (kid s) p c true) (rt s p) c (upd (rt s) c (rt s p)) = Some f /\
+    s' = mkst (upd (par s) c p) f (upd2 (kid s) p c true) (pend s)
+              (upd (upd (upd (q s) (rt s p) (q s (rt s p) ++ q s c)) c []) (f c)
+                   (upd (upd (q s) (rt s p) (q s (rt s p) ++ q s c)) c [] (f c) ++ [Registered c p]))
+              (upd (dirty s) (rt s p) true) (cache s) ((c, p) :: regd s) (unregd s) (disp s).
+Proof.
+  intros n c p s s' H. unfold register in H.
+  destruct (c <? n) eqn:H1; [|discriminate]. destruct (p <? n) eqn:H2; [|discriminate].
+  destruct (par s c =? c) eqn:H3; [|discriminate]. destruct (pend s c) eqn:H4; [discriminate|].
+  destruct (rt s p =? c) eqn:H5; [discriminate|]. destruct (c =? p) eqn:H6; [discriminate|].
+  cbn [andb negb] in H. proj_in H.
+  apply Nat.ltb_lt in H1. apply Nat.ltb_lt in H2. apply Nat.eqb_eq in H3.
+  apply Nat.eqb_neq in H5. apply Nat.eqb_neq in H6.
+  repeat (split; [assumption|]). split; [reflexivity|]. split; [assumption|]. split; [assumption|].
+  destruct (upd_root n (S n) (upd2 (kid s) p c true) (rt s p) c (upd (rt s) c (rt s p))) as [f|] eqn:Hu;
+    [|discriminate].
+  exists f. split; [reflexivity|]. inversion H. reflexivity.
+Qed.
+
+(* ------------------------------------------------------------------ every operation preserves the invariant *)
+
+Lemma invF_cache : forall n pa ro kd pe di ca dl di' ca',
+  InvF n pa ro kd pe di ca dl ->
+  (forall r, pa r = r -> di' r = false -> forall k ms x, In (k, ms) (ca' r) -> In x ms -> ro x = r) ->
+  InvF n pa ro kd pe di' ca' dl.
+Proof. intros n pa ro kd pe di ca dl di' ca' [] H. constructor; assumption. Qed.
+
+Lemma invF_disp : forall n pa ro kd pe di ca dl d,
+  InvF n pa ro kd pe di ca dl -> d_ok d = true -> InvF n pa ro kd pe di ca (d :: dl).
+Proof.
+  intros n pa ro kd pe di ca dl d [] H. constructor; try assumption.
+  intros d' [<-|Hin]; [exact H | auto].
+Qed.
+
+Lemma find_key_in : forall k l ms, find_key k l = Some ms -> exists k', In (k', ms) l.
+Proof.
+  induction l as [|[k' m] l IH]; intros ms H; [discriminate|]. simpl in H.
+  destruct (key_eqb k k').
+  - inversion H; subst. exists k'. left; reflexivity.
+  - destruct (IH ms H) as [k'' Hin]. exists k''. right; exact Hin.
+Qed.
+
+Definition same_tree (s s' : st) : Prop :=
+  par s' = par s /\ rt s' = rt s /\ kid s' = kid s /\ pend s' = pend s /\ q s' = q s /\
+  regd s' = regd s /\ unregd s' = unregd s /\ disp s' = disp s.
+
+Lemma lookup_inv : forall n r e s s1 ms, Inv n s -> par s r = r -> lookup n r e s = (s1, ms) ->
+  Inv n s1 /\ (forall x, In x ms -> rt s1 x = r) /\ same_tree s s1.
+Proof.
+  intros n r e s s1 ms I Hr H. unfold lookup in H.
+  set (s0 := if dirty s r then set_dirty (set_cache s (upd (cache s) r [])) (upd (dirty s) r false) else s) in *.
+  assert (H0 : Inv n s0 /\ dirty s0 r = false /\ same_tree s s0).
+  { unfold s0. destruct (dirty s r) eqn:Hd.
+    - split; [|split; [proj; apply upd_same | repeat split]].
+      unfold Inv; proj. eapply invF_cache; [exact I|].
+      intros r' Hr' Hd' k ms' x Hin Hx. destruct (Nat.eq_dec r' r) as [->|N].
+      + rewrite upd_same in Hin. contradiction.
+      + rewrite upd_other in Hin, Hd' by exact N. eapply (i_cache _ _ _ _ _ _ _ _ I); eassumption.
+    - split; [exact I | split; [exact Hd | repeat split]]. }
+  destruct H0 as [I0 [Hd0 T0]]. clearbody s0.
+  assert (Hr0 : par s0 r = r) by (destruct T0 as [-> _]; exact Hr).
+  destruct (find_key (key_of e) (cache s0 r)) as [m|] eqn:Hf.
+  - inversion H; subst. split; [exact I0|]. split; [|exact T0].
+    intros x Hx. destruct (find_key_in _ _ _ Hf) as [k' Hin].
+    eapply (i_cache _ _ _ _ _ _ _ _ I0); eassumption.
+  - inversion H; subst. clear H.
+    assert (Hms : forall x, In x (members n (kid s0) r) -> rt s0 x = r).
+    { intros x Hx. apply members_sound in Hx.
+      rewrite (desc_rt _ _ _ _ _ _ _ _ I0 r x Hx). apply (i_self _ _ _ _ _ _ _ _ I0). exact Hr0. }
+    split; [|split; [exact Hms|]].
+    + unfold Inv; proj. eapply invF_cache; [exact I0|].
+      intros r' Hr' Hd' k ms' x Hin Hx. destruct (Nat.eq_dec r' r) as [->|N].
+      * rewrite upd_same in Hin. destruct Hin as [E|Hin].
+        -- inversion E; subst. apply Hms. exact Hx.
+        -- eapply (i_cache _ _ _ _ _ _ _ _ I0); eassumption.
+      * rewrite upd_other in Hin by exact N. eapply (i_cache _ _ _ _ _ _ _ _ I0); eassumption.
+    + destruct T0 as [A [B [C [D [E [F [G K]]]]]]]. repeat split; assumption.
+Qed.
+
+Lemma complete_inv : forall n c s s', Inv n s -> complete n c s = Ok s' ->
+  Inv n s' /\ (forall r, par s r = r -> par s' r = r).
+Proof.
+  intros n c s s' I H. destruct (complete_ok _ _ _ _ H) as [Hp Hrest].
+  assert (Hatt : par s c <> c) by (apply (i_pend _ _ _ _ _ _ _ _ I); exact Hp).
+  destruct (Hrest Hatt) as [f [Hu ->]]. split.
+  - unfold Inv; proj. apply unreg_invF; [exact I | exact Hatt|].
+    eapply upd_root_spec; [|exact Hu].
+    intros a b Hab. destruct (Nat.eq_dec a (par s c)) as [->|Na]; destruct (Nat.eq_dec b c) as [->|Nb].
+    + rewrite upd2_same in Hab. discriminate.
+    + rewrite upd2_other in Hab by tauto. eapply (i_kidlt _ _ _ _ _ _ _ _ I); exact Hab.
+    + rewrite upd2_other in Hab by tauto. eapply (i_kidlt _ _ _ _ _ _ _ _ I); exact Hab.
+    + rewrite upd2_other in Hab by tauto. eapply (i_kidlt _ _ _ _ _ _ _ _ I); exact Hab.
+  - intros r Hr. proj. destruct (Nat.eq_dec r c) as [->|N]; [apply upd_same|].
+    rewrite upd_other by exact N. exact Hr.
+Qed.
+
+Lemma register_inv : forall n c p s s', Inv n s -> register n c p s = Ok s' -> Inv n s'.
+Proof.
+  intros n c p s s' I H.
+  destruct (register_ok _ _ _ _ _ H) as [Hc [Hp [Hdet [Hnp [Hout [Hcp [f [Hu ->]]]]]]]].
+  unfold Inv; proj. apply reg_invF; try assumption.
+  eapply upd_root_spec; [|exact Hu].
+  intros a b Hab. destruct (Nat.eq_dec a p) as [->|Na]; destruct (Nat.eq_dec b c) as [->|Nb]; try exact Hc;
+    (rewrite upd2_other in Hab by tauto); eapply (i_kidlt _ _ _ _ _ _ _ _ I); exact Hab.
+Qed.
+
+Lemma dispatch_inv : forall n r e s s', Inv n s -> par s r = r -> dispatch n r e s = Ok s' ->
+  Inv n s' /\ par s' r = r.
+Proof.
+  intros n r e s s' I Hr H. unfold dispatch in H.
+  destruct (lookup n r e s) as [s1 ms] eqn:Hl.
+  destruct (lookup_inv _ _ _ _ _ _ I Hr Hl) as [I1 [Hms T]].
+  assert (Hr1 : par s1 r = r) by (destruct T as [-> _]; exact Hr).
+  set (s2 := set_disp s1 (mkd r e ms (forallb (fun x => rt s1 x =? r) ms) :: disp s1)) in *.
+  assert (I2 : Inv n s2).
+  { unfold s2, Inv; proj. apply invF_disp; [exact I1|]. cbn [d_ok].
+    apply forallb_forall. intros x Hx. apply Nat.eqb_eq. apply Hms. exact Hx. }
+  assert (Hr2 : par s2 r = r) by exact Hr1.
+  clearbody s2.
+  destruct e; try (inversion H; subst; split; assumption).
+  - inversion H; subst. split; [exact I2 | exact Hr2].
+  - destruct (existsb (Nat.eqb c) ms).
+    + destruct (complete_inv _ _ _ _ I2 H) as [I3 Hroots]. split; [exact I3 | apply Hroots; exact Hr2].
+    + inversion H; subst. split; assumption.
+Qed.
+
+Lemma dispatch_all_inv : forall n r sched s s', Inv n s -> par s r = r -> dispatch_all n r sched s = Ok s' ->
+  Inv n s' /\ par s' r = r.
+Proof.
+  intros n r. induction sched as [|e t IH]; intros s s' I Hr H; simpl in H.
+  - inversion H; subst. split; assumption.
+  - destruct (dispatch n r e s) as [s1| | | |] eqn:Hd; try discriminate.
+    destruct (dispatch_inv _ _ _ _ _ I Hr Hd) as [I1 Hr1]. eapply IH; eassumption.
+Qed.
+
+Lemma flush_inv : forall n r sched s s', Inv n s -> par s r = r -> flush n r sched s = Ok s' -> Inv n s'.
+Proof.
+  intros n r sched s s' I Hr H. unfold flush in H.
+  destruct (is_perm sched (q s r)); [|discriminate].
+  eapply dispatch_all_inv; [| |exact H]; [exact I | exact Hr].
+Qed.
+
+Lemma tick1_inv : forall n r sched s s', Inv n s -> tick1 n r sched s = Ok s' -> Inv n s'.
+Proof.
+  intros n r sched s s' I H. unfold tick1 in H. destruct (q s r).
+  - destruct sched; [inversion H; subst; exact I | discriminate].
+  - eapply flush_inv; [exact I | | exact H]. apply (i_rtroot _ _ _ _ _ _ _ _ I).
+Qed.
+
+Lemma ticks_inv : forall n r scheds s s', Inv n s -> ticks n r scheds s = Ok s' -> Inv n s'.
+Proof.
+  intros n r. induction scheds as [|sc t IH]; intros s s' I H; simpl in H.
+  - inversion H; subst; exact I.
+  - destruct (tick1 n r sc s) as [s1| | | |] eqn:Ht; try discriminate.
+    eapply IH; [|exact H]. eapply tick1_inv; eassumption.
+Qed.
+
+Lemma unregister_inv : forall n c s s', Inv n s -> unregister n c s = Ok s' -> Inv n s'.
+Proof.
+  intros n c s s' I H. unfold unregister in H.
+  destruct (c <? n); [|discriminate]. destruct (par s c =? c) eqn:E; [discriminate|].
+  apply Nat.eqb_neq in E. cbn [andb negb] in H.
+  destruct (pend s c) eqn:Hp; inversion H; subst; [exact I|].
+  unfold Inv; proj. destruct I as [Hkl Hrl Hk Hrp Hrr Hs Hrk Hpe Hca Hdl].
+  constructor; try assumption.
+  - intros x Hx. destruct (Nat.eq_dec x c) as [->|N]; [exact E|].
+    rewrite upd_other in Hx by exact N. apply Hpe; exact Hx.
+  - intros r Hr Hd k ms x Hin Hx. destruct (Nat.eq_dec r (rt s c)) as [->|N].
+    + rewrite upd_same in Hd. discriminate.
+    + rewrite upd_other in Hd by exact N. eapply Hca; eassumption.
+Qed.
+
+Lemma step_inv : forall n o s s', Inv n s -> step n o s = Ok s' -> Inv n s'.
+Proof.
+  intros n o s s' I H. destruct o as [c p|c|x i|r scheds|x sched]; simpl in H.
+  - eapply register_inv; eassumption.
+  - eapply unregister_inv; eassumption.
+  - destruct (x <? n); [|discriminate]. inversion H; subst. exact I.
+  - destruct ((r <? n) && (par s r =? r)); [|discriminate]. eapply ticks_inv; eassumption.
+  - destruct (x <? n); [|discriminate]. eapply flush_inv; [exact I | | exact H].
+    apply (i_rtroot _ _ _ _ _ _ _ _ I).
+Qed.
+
+Lemma run_inv : forall n h s s', Inv n s -> run n h s = Ok s' -> Inv n s'.
+Proof.
+  intros n. induction h as [|o t IH]; intros s s' I H; simpl in H.
+  - inversion H; subst; exact I.
+  - destruct (step n o s) as [s1| | | |] eqn:Hs; try discriminate.
+    eapply IH; [|exact H]. eapply step_inv; eassumption.
+Qed.
